@@ -65,6 +65,9 @@ structure Opnd where
   key : Txt                 -- identity under `==` (`__eq__` of the operand classes): equal keys ⇔ equal operands
   val : Val := .none        -- immediates: `value`
   off : MOff := .absent     -- memory: `offset`
+  /-- memory with `off = .obj`: canonical text of a symbolic displacement (`IdentifierOperand`: name, constant
+      offset, relocation) as `kernel_dg.is_memload` compares it; `[]`: not an identifier -/
+  offSym : Txt := []
   postVal : Val := .none    -- memory: `post_indexed["value"]` (`.absent`: a dict without that key)
   deriving DecidableEq, Repr, Inhabited
 
@@ -403,6 +406,11 @@ def dgOffset : MOff → Option Int
   | .imm (.int v) => some v
   | _ => none
 
+/-- symbolic displacement as `kernel_dg.is_memload` (repaired) reads it -/
+def dgSym : MOff → Txt → Option Txt
+  | .obj, t => if t.isEmpty then none else some t
+  | _, _ => none
+
 def toDG : SemOp → DG.Op
   | .op _ o =>
     match o.p with
@@ -410,7 +418,8 @@ def toDG : SemOp → DG.Op
     | .mem m =>
       .mem { base := m.base.map (fun b => dgReg b.pfx b.name false false),
              index := m.index.map (fun b => dgReg b.pfx b.name false false),
-             scale := m.scale, offset := dgOffset o.off, pre := m.pre, post := m.post, eqKey := o.key }
+             scale := m.scale, offset := dgOffset o.off, sym := dgSym o.off o.offSym,
+             pre := m.pre, post := m.post, eqKey := o.key }
     | _ => .other
   | .hid (.reg p n) => .reg (dgReg p n false false)
   | .hid (.flag n) => .flag n
